@@ -333,6 +333,16 @@ func runC11(c *fw.Ctx) int {
 			plainPairs(c, t)
 		}
 	}
+	// histories: field changes anywhere in the value tree between Size / Marshal calls of the runtime and of csproto
+	hist, histRounds := append(append([]shimType{}, ts...), nestedShimCorpus()...), 30
+	if c.Tier == "thorough" {
+		histRounds = 1500
+	}
+	for i := 0; i < histRounds; i++ {
+		for _, t := range hist {
+			shimHistory(c, t)
+		}
+	}
 	for _, u := range unsupportedValues() {
 		unsupportedCaseRun(c, u)
 	}
@@ -354,7 +364,7 @@ func runC11(c *fw.Ctx) int {
 		c.LeanChecker("C11")
 	}
 	return c.Finish(
-		"classes: 32 real message types (gogo with and without fast-marshal methods, golang v1 old-style plain types, golang-v1-API and google v2 generated types with fast-marshal methods, google v2 and gogo well-known types incl. an empty message; 17 of them with float/double fields: singular, optional, repeated, in nested and repeated nested messages, as map values and oneof members) with random values: Marshal/Unmarshal in both directions against the owning runtime's own functions, Size = len(Marshal), GrpcCodec, Clone, Equal (equal and mutated copies, cross-runtime pairs), MarshalText, Reset, MsgType vs the Lean classification of the measured capability vector; unsupported: 10 values of unsupported kinds through 13 functions (documented error / zero value, no panic); pairs: for every float position of a populated message x {NaN, a second NaN payload, -0.0, +0.0, +Inf, -Inf, smallest denormal, 1.5} and for random values of every type: csproto.Equal against the runtime's Equal on the pairs (m, m) same pointer, (m, runtime clone) both ways, (m, csproto.Clone(m)), (m, copy through the wire), (m, copy with an unknown field), (m, mutated copy) both ways, (m, copy that differs in that one float) both ways, (m, empty) both ways, (m, typed nil) both ways, same-pointer pairs of the wire copy / the unknown-field copy / an empty message / typed nil, each pair also sent to the Lean model of the Equal dispatcher (classification of both arguments, pointer identity, the runtime's answer); Clone, MarshalText, Marshal/Size, Unmarshal, GrpcCodec and Reset against the runtime's function on the same values (messages compared with the runtime's Equal, or by text where that is not reflexive); first-use: 2-64 goroutines classify a value concurrently right after the type cache was emptied; non-trivial = every case",
+		"classes: 32 real message types (gogo with and without fast-marshal methods, golang v1 old-style plain types, golang-v1-API and google v2 generated types with fast-marshal methods, google v2 and gogo well-known types incl. an empty message; 17 of them with float/double fields: singular, optional, repeated, in nested and repeated nested messages, as map values and oneof members) with random values: Marshal/Unmarshal in both directions against the owning runtime's own functions, Size = len(Marshal), GrpcCodec, Clone, Equal (equal and mutated copies, cross-runtime pairs), MarshalText, Reset, MsgType vs the Lean classification of the measured capability vector; unsupported: 10 values of unsupported kinds through 13 functions (documented error / zero value, no panic); pairs: for every float position of a populated message x {NaN, a second NaN payload, -0.0, +0.0, +Inf, -Inf, smallest denormal, 1.5} and for random values of every type: csproto.Equal against the runtime's Equal on the pairs (m, m) same pointer, (m, runtime clone) both ways, (m, csproto.Clone(m)), (m, copy through the wire), (m, copy with an unknown field), (m, mutated copy) both ways, (m, copy that differs in that one float) both ways, (m, empty) both ways, (m, typed nil) both ways, same-pointer pairs of the wire copy / the unknown-field copy / an empty message / typed nil, each pair also sent to the Lean model of the Equal dispatcher (classification of both arguments, pointer identity, the runtime's answer); Clone, MarshalText, Marshal/Size, Unmarshal, GrpcCodec and Reset against the runtime's function on the same values (messages compared with the runtime's Equal, or by text where that is not reflexive); histories: for every type above and 7 types whose values hold messages two to four levels deep (descriptorpb / gogo descriptor files, structpb lists and structs, generated messages with generated and runtime-served messages as singular fields, oneof members and map values), 3-9 steps drawn from: change ONE site anywhere in the value tree (string / bytes lengths across 0, 1, 127/128, 200, 300; integers across the varint widths; list append / drop; map insert / delete / value change; half of the time inside a sub-message), the runtime's Size, the runtime's Marshal, csproto.Size, csproto.Marshal, GrpcCodec.Marshal — every csproto result compared with the owning runtime's result on a fresh clone (length, and both decoded by the runtime's Unmarshal); first-use: 2-64 goroutines classify a value concurrently right after the type cache was emptied; non-trivial = every case",
 		append(trustedCommon, "the three protobuf runtimes' own Marshal/Unmarshal/Size/Clone/Equal/text functions (the oracle compares against them)", "sync.Map assumed linearizable"),
 		[]string{"data-race freedom of the type cache is not carried by the model (sync.Map is assumed linearizable); the interleaving model proves that every interleaving returns and caches deduce(v)",
 			"an old-style golang v1 type with fast-marshal methods cannot be produced offline (no such generator is cached); that combination is not exercised"})
